@@ -20,7 +20,11 @@ enum OpKind
     O_PUSH,
     O_TRYPOP,
     O_YIELD,
-    O_NONE
+    O_NONE,
+    // the event programs (gen_event_program):
+    O_EV_WAIT,   // igris::event q: wait(), or wait(1 h) when prio is set
+    O_EV_SIGNAL, // igris::event q: signal()
+    O_QINIT      // not executed by a thread: the safe_queue starts with `val` items (initializer-list constructor)
 };
 struct Op
 {
@@ -53,6 +57,12 @@ std::string op_str(const Op &o)
         return "size?pop";
     case O_YIELD:
         return "yield";
+    case O_EV_WAIT:
+        return fmt("event%d.wait(%s)", o.q, o.prio ? "1h" : "");
+    case O_EV_SIGNAL:
+        return fmt("event%d.signal()", o.q);
+    case O_QINIT:
+        return fmt("[queue starts with %ld items]", o.val);
     default:
         return "-";
     }
@@ -156,5 +166,67 @@ Program gen_program(Src &s)
     return p;
 }
 
+// Programs around igris::event and a safe_queue that starts non-empty: 2..4 threads of <= 5 operations; every event that is
+// waited for is signalled by some thread (the signal may come before, while or after the waiter parks).
+const int kEvents = 2;
+Program gen_event_program(Src &s)
+{
+    int nt = (int)s.range(2, 4);
+    Program p((size_t)nt);
+    long seq = 0;
+    long qinit = s.below(3) == 0 ? 0 : (long)s.range(1, 4);
+    p[0].push_back(Op{O_QINIT, 0, 0, qinit});
+    for (int t = 0; t < nt; t++)
+    {
+        int n = (int)s.range(1, 5);
+        int depth = 0;
+        for (int i = 0; i < n; i++)
+        {
+            Op o{O_YIELD};
+            switch (s.weighted({4, 4, 3, 2, 1, 1, 1}))
+            {
+            case 0:
+                if (depth == 0)
+                {
+                    o.k = O_EV_WAIT;
+                    o.q = (int)s.below(kEvents);
+                    o.prio = (int)s.below(2);
+                }
+                break;
+            case 1:
+                o.k = O_EV_SIGNAL;
+                o.q = (int)s.below(kEvents);
+                break;
+            case 2:
+                o.k = O_PUSH;
+                o.val = t * 100 + (++seq);
+                break;
+            case 3:
+                if (t == 0)
+                    o.k = O_TRYPOP;
+                break;
+            case 4:
+                if (depth < 2)
+                {
+                    o.k = O_LOCK;
+                    o.prio = (t + i) % 3;
+                    depth++;
+                }
+                break;
+            case 5:
+                if (depth > 0)
+                {
+                    o.k = O_UNLOCK;
+                    depth--;
+                }
+                break;
+            default:
+                break;
+            }
+            p[(size_t)t].push_back(o);
+        }
+    }
+    return p;
+}
 
 } // namespace c20
